@@ -77,6 +77,7 @@ impl CfgModel {
             AdminOp::SetNumberCfg { digits, remove_zero, rounding } => { self.number_cfg = (*digits, *remove_zero, *rounding); Some(AdminObs::Unit) }
             AdminOp::SetPercentCfg { digits, remove_zero, rounding } => { self.percent_cfg = (*digits, *remove_zero, *rounding); Some(AdminObs::Unit) }
             AdminOp::SetMoneyCfg { remove_zero, rounding } => { self.money_cfg = (*remove_zero, *rounding); Some(AdminObs::Unit) }
+            AdminOp::SetDateRule { mdy } => { self.fmt.mdy = *mdy; Some(AdminObs::Unit) }
             AdminOp::AddRule { lang, rule } => {
                 if self.langs.contains(lang) {
                     self.rules.entry(lang.clone()).or_default().push(rule.clone());
@@ -316,6 +317,12 @@ impl World {
                 AdminOp::SetNumberCfg { digits, remove_zero, rounding } => { calc.set_number_configuration(*digits, *remove_zero, *rounding); AdminObs::Unit }
                 AdminOp::SetPercentCfg { digits, remove_zero, rounding } => { calc.set_percentage_configuration(*digits, *remove_zero, *rounding); AdminObs::Unit }
                 AdminOp::SetMoneyCfg { remove_zero, rounding } => { calc.set_money_configuration(*remove_zero, *rounding); AdminObs::Unit }
+                AdminOp::SetDateRule { mdy } => {
+                    let numeric = if *mdy { "{NUMBER:month}/{NUMBER:day}/{NUMBER:year}" } else { "{NUMBER:day}/{NUMBER:month}/{NUMBER:year}" };
+                    calc.set_date_rule("en", vec!["{MONTH:month} {NUMBER:day}, {NUMBER:year}".to_string(), "{MONTH:month} {NUMBER:day} {NUMBER:year}".to_string(), numeric.to_string(), "{NUMBER:day} {MONTH:month} {NUMBER:year}".to_string(), "{NUMBER:day} {MONTH:month}".to_string()]);
+                    calc.set_date_rule("tr", vec![numeric.to_string(), "{NUMBER:day} {MONTH:month} {NUMBER:year}".to_string(), "{NUMBER:day} {MONTH:month}".to_string()]);
+                    AdminObs::Unit
+                }
                 AdminOp::AddRule { lang, rule } => {
                     let r = Rc::new(SimRule { spec: rule.clone(), salt, log: log.clone(), allow_unwind, nest: nest.clone() });
                     AdminObs::Bool(calc.add_rule(lang.clone(), rule.patterns.clone(), r))
